@@ -74,6 +74,9 @@ pub struct Profile {
     /// no tags in the text of functions (a tag raised while an expression inside choice text
     /// is half evaluated lands among its operands: an engine quirk, not a language rule)
     pub no_tags_in_functions: bool,
+    /// inline conditionals inside sequence alternatives and sequences inside conditional
+    /// branches (C01)
+    pub nested_inline: bool,
 }
 
 impl Default for Profile {
@@ -102,6 +105,7 @@ impl Default for Profile {
             no_fall_off: false,
             rich_choice_text: false,
             no_tags_in_functions: false,
+            nested_inline: false,
         }
     }
 }
@@ -1033,6 +1037,26 @@ impl<'a> Gen<'a> {
     // ---------------------------------------------------------------- text
 
     fn inline_simple(&mut self, sc: &Scope) -> Vec<Inline> {
+        if self.p.nested_inline && !(self.p.pure_functions && sc.func.is_some()) && self.t.chance(1, 6) {
+            // one more level: a conditional or a sequence made of plain pieces
+            let mut v = vec![Inline::Text(self.words(1, 1))];
+            v.push(Inline::Text(" ".into()));
+            if self.t.chance(1, 2) {
+                let c = self.bool_expr(sc, 1);
+                let a = vec![Inline::Text(self.words(1, 2))];
+                let b = if self.t.chance(1, 2) { vec![Inline::Text(self.words(1, 1))] } else { vec![] };
+                v.push(Inline::Cond(c, a, b));
+            } else {
+                let kind = match self.t.pick(3) {
+                    0 => SeqKind::Stopping,
+                    1 => SeqKind::Cycle,
+                    _ => SeqKind::Once,
+                };
+                let alts = (0..2 + self.t.pick(2)).map(|_| vec![Inline::Text(self.words(1, 1))]).collect();
+                v.push(Inline::Seq(kind, alts));
+            }
+            return v;
+        }
         match self.t.pick(4) {
             0 | 1 | 2 => vec![Inline::Text(self.words(1, 2))],
             _ => vec![Inline::Expr(self.printable_expr(sc))],
